@@ -29,6 +29,9 @@ pub fn run_c06(o: &Opts) -> Report {
         "C06",
         "pairs of enum terms: (t, rebuild(t)) along shuffled insertion orders with duplicates in fresh HashSets, \
          (t, perturb(t)), (t, t parsed twice from its ASCII text), independent pairs; nested to depth<=5; \
+         values built through the public variants: near-miss images whose own list holds a placeholder / whose index lies beyond the list \
+         (same expanded sequence, different index), the placeholder as an ordinary component of every constructor, both orders, bare and nested; \
+         the same description rebuilt on another thread; \
          distinct = distinct canonical-form pairs; non-trivial = at least one side contains an unordered or symmetric node",
     );
     let mut rng = Rng::new(o.seed ^ 0xC06);
@@ -402,7 +405,9 @@ pub fn run_c07(o: &Opts) -> Report {
         "C07",
         "terms t with the recorded write stream of t.hash() (recording Hasher) and the DefaultHasher value of every sub-term \
          (oracle for the model's fixed_hash); plus on the real code: equal pairs (t, rebuild(t)) hashed under fresh RandomStates, \
-         HashSet::contains / HashMap::get with the equal key; distinct = distinct canonical forms; non-trivial = contains an unordered or symmetric node",
+         HashSet::contains / HashMap::get with the equal key; near-miss pairs (images with placeholder components / out-of-range indices, \
+         placeholder components) must be unequal or hash alike; the same term hashed on a spawned thread, hash sets / maps filled on another thread; \
+         distinct = distinct canonical forms; non-trivial = contains an unordered or symmetric node",
     );
     let mut rng = Rng::new(o.seed ^ 0xC07);
     let g = tgen(NameStyle::Mixed, if o.thorough { 6 } else { 5 }, 4, true);
@@ -563,6 +568,8 @@ pub fn run_c14(o: &Opts) -> Report {
     let mut rep = Report::new(
         "C14",
         "every constructor x every image index 0..n for n in 0..4 (exhaustive), nested random terms (depth<=4), incl. images whose index exceeds the length; \
+         the placeholder as an ordinary component of every compound / statement constructor (and sprinkled over random terms), images whose own list holds it; \
+         on the real code also: get_components == the stored payload of the variant, == components_including_placeholder off images; \
          on the real code: extract == components_including_placeholder, placeholder at index, category partition, capacity vs count; lexical terms: extraction and category vs fold; \
          distinct = distinct canonical forms; non-trivial = compound or statement",
     );
@@ -806,6 +813,8 @@ pub fn run_c17(o: &Opts) -> Report {
         "C17",
         "every constructor x adversarial names (\"\", +, +5, -5, 0005, 2^64-1, 2^64, fullwidth digits, spaces ...) for set_atom_name; \
          every constructor x component lists (0..4 items, incl. duplicates of existing components) for push_components; \
+         every variable-arity constructor x batches holding an element equal to an existing one but spelled differently (operands of <->, <=>, <|> exchanged, \
+         sets re-inserted in another order; bare and nested): the union holds no two == components and lacks none; \
          on the real code: outcome and post-state vs an independent reference, on Err unchanged; distinct = distinct (term, op) canonical pairs; non-trivial = all",
     );
     let mut rng = Rng::new(o.seed ^ 0xC17);
